@@ -169,6 +169,7 @@ func runC02(c *kit.Ctx) {
 	// ---- R4 ---------------------------------------------------------------
 	c.StartRule("R4", "multi action index: writer and reader agree, m.calls is never reordered", 6)
 	unsentCallsAreCleared(c)
+	responseIndicesAreUnique(c)
 	{
 		var k1 int64 = -1
 		var idxVal ssa.Value
